@@ -34,7 +34,7 @@ def sysreq_sig(case, idx, verdict):
 
 def check(ctx):
     # body of Routes::process_updates (both loops) regenerated from ca/roa.rs; C05Src: = the model's processUpdates
-    vlib.translate(ctx, [("pure_fns:C05", "PureFns.lean")])
+    vlib.translate(ctx, [("pure_fns:C05", "PureFnsC05.lean")])
     vlib.prove(ctx, PROPS + ["KrillModel.Props.C05Src"])
     found = False
     if vlib.build_harness(ctx, ["pure", "system"]):
